@@ -69,6 +69,80 @@ pub fn run_real(ops: &[Op], key: &KeyPair) -> (String, DistinguishedName) {
 	)
 }
 
+/// base-128 content octets of an OBJECT IDENTIFIER (first two components folded)
+fn oid_content(arcs: &[u64]) -> Vec<u8> {
+	let mut out = Vec::new();
+	if arcs.len() < 2 {
+		return out;
+	}
+	let mut subs: Vec<u128> = vec![arcs[0] as u128 * 40 + arcs[1] as u128];
+	subs.extend(arcs[2..].iter().map(|a| *a as u128));
+	for v in subs {
+		let mut tmp = vec![(v & 0x7f) as u8];
+		let mut x = v >> 7;
+		while x > 0 {
+			tmp.push(0x80 | (x & 0x7f) as u8);
+			x >>= 7;
+		}
+		tmp.reverse();
+		out.extend(tmp);
+	}
+	out
+}
+
+fn type_arcs(t: &DnT) -> Vec<u64> {
+	match t {
+		DnT::C => vec![2, 5, 4, 6],
+		DnT::L => vec![2, 5, 4, 7],
+		DnT::St => vec![2, 5, 4, 8],
+		DnT::O => vec![2, 5, 4, 10],
+		DnT::Ou => vec![2, 5, 4, 11],
+		DnT::Cn => vec![2, 5, 4, 3],
+		DnT::Custom(v) => v.clone(),
+	}
+}
+
+/// an X.501 reading of an encoded Name that shares nothing with rcgen or the model: the list of
+/// (attribute type content octets, value tag, value content octets), one per RDN
+fn read_name(name: &[u8]) -> Option<Vec<(Vec<u8>, u8, Vec<u8>)>> {
+	let (seq, rest) = crate::der::read_tlv(name)?;
+	if seq.tag != 0x30 || !rest.is_empty() {
+		return None;
+	}
+	let mut out = Vec::new();
+	for rdn in crate::der::children(seq.content)? {
+		if rdn.tag != 0x31 {
+			return None;
+		}
+		let atvs = crate::der::children(rdn.content)?;
+		if atvs.len() != 1 || atvs[0].tag != 0x30 {
+			return None;
+		}
+		let f = crate::der::children(atvs[0].content)?;
+		if f.len() != 2 || f[0].tag != 0x06 {
+			return None;
+		}
+		out.push((f[0].content.to_vec(), f[1].tag, f[1].content.to_vec()));
+	}
+	Some(out)
+}
+
+fn expected_name(abs: &[(DnT, DnV)]) -> Vec<(Vec<u8>, u8, Vec<u8>)> {
+	abs.iter()
+		.map(|(t, v)| {
+			let (tag, content) = match v {
+				DnV::Utf8(s) => (12u8, s.as_bytes().to_vec()),
+				DnV::Printable(s) => (19, s.as_bytes().to_vec()),
+				DnV::Teletex(s) => (20, s.as_bytes().to_vec()),
+				DnV::Ia5(s) => (22, s.as_bytes().to_vec()),
+				DnV::Universal(b) => (28, b.clone()),
+				DnV::Bmp(b) => (30, b.clone()),
+			};
+			(oid_content(&type_arcs(t)), tag, content)
+		})
+		.collect()
+}
+
 fn check_history(ctx: &mut Ctx, rep: &mut Report, drv: &mut Driver, ops: &[Op], prev: &mut Option<(DistinguishedName, String)>) {
 	let line = format!("dn-hist {}", ops.iter().map(|o| o.sexp()).collect::<Vec<_>>().join(" "));
 	let (real, dn) = run_real(ops, &ctx.ed_key);
@@ -108,6 +182,18 @@ fn check_history(ctx: &mut Ctx, rep: &mut Report, drv: &mut Driver, ops: &[Op], 
 	if !real.starts_with(&expect_prefix) {
 		rep.violate("C20:enumeration", "real DistinguishedName does not behave as an insertion-ordered map", format!("request: {}\nreal:     {}\nexpected: {} ...", line, real, expect_prefix));
 	}
+	// the encoded name, read by an X.501 reader of the harness' own: one RDN per attribute present,
+	// in the order of the enumeration, each with its type, string tag and value
+	{
+		let name_hex = real.rsplit("(name ").next().unwrap_or("").trim_end_matches(')').to_string();
+		if let Some(bytes) = unhex(&name_hex) {
+			let got = read_name(&bytes);
+			let want = expected_name(&abs);
+			if got.as_ref() != Some(&want) {
+				rep.violate("C20:encoded-name-lists-enumeration", "the subject of a certificate does not list the attributes present, each once, in enumeration order with their values", format!("history: {}\nencoded subject: {}\nread as {} RDNs, the enumeration has {} attributes", line, name_hex, got.map(|g| g.len() as i64).unwrap_or(-1), want.len()));
+			}
+		}
+	}
 	// equality of names = equality of enumerations
 	let iter_txt = tagged("iter", &expect_iter);
 	if let Some((pdn, piter)) = prev {
@@ -120,6 +206,48 @@ fn check_history(ctx: &mut Ctx, rep: &mut Report, drv: &mut Driver, ops: &[Op], 
 		}
 	}
 	let _ = iter_txt;
+	// the enumeration through the iterator's other entry points: whatever part has been consumed,
+	// what is left is counted, bounded and yielded as the rest of the same enumeration
+	{
+		let n = abs.len();
+		let all: Vec<(DnType, DnValue)> = dn.iter().map(|(t, v)| (t.clone(), v.clone())).collect();
+		let mut bad: Option<String> = None;
+		if all.len() != n || dn.iter().count() != n {
+			bad = Some(format!("iter() yields {} / counts {} items, {} attributes are present", all.len(), dn.iter().count(), n));
+		}
+		for k in 0..=n.min(4) {
+			let mut it = dn.iter();
+			for _ in 0..k {
+				it.next();
+			}
+			let (lo, hi) = it.size_hint();
+			let left = n - k.min(n);
+			if lo > left || hi.map(|h| h < left).unwrap_or(false) {
+				bad = Some(format!("after {} of {} items size_hint() = ({}, {:?}) does not bracket the {} left", k, n, lo, hi, left));
+			}
+			let mut it2 = dn.iter();
+			for _ in 0..k {
+				it2.next();
+			}
+			let c = it2.count();
+			let rest: Vec<(DnType, DnValue)> = dn.iter().skip(k).map(|(t, v)| (t.clone(), v.clone())).collect();
+			let last = dn.iter().skip(k).last().map(|(t, v)| (t.clone(), v.clone()));
+			if c != left || rest[..] != all[k.min(n)..] || last != all[k.min(n)..].last().cloned() {
+				bad = Some(format!("after {} of {} items: count() = {}, skip({}).collect() has {} items", k, n, c, k, rest.len()));
+			}
+			// an exhausted enumeration stays exhausted
+			let mut it3 = dn.iter();
+			for _ in 0..n {
+				it3.next();
+			}
+			if it3.next().is_some() || it3.next().is_some() {
+				bad = Some("an exhausted enumeration yields again".into());
+			}
+		}
+		if let Some(b) = bad {
+			rep.violate("C20:enumeration-protocol", "the enumeration reports other items through count / size_hint / skip / last than the attributes present", format!("history: {}\n{}", line, b));
+		}
+	}
 	let real_iter: Vec<String> = dn.iter().map(|(t, v)| list(&[DnT::of_real(t).sexp(), DnV::of_real(v).sexp()])).collect();
 	// ... against names built directly from the enumeration: in the same order (must be equal
 	// whatever the edit history was), reversed and rotated (equal only if the enumeration is)
